@@ -148,6 +148,33 @@ def _operation():
     return _state["op"]
 
 
+SIMPLE_NAME = re.compile(r"^[A-Za-z0-9_\-]+$")
+
+
+def in_domain(expr: str) -> bool:
+    """The zone where the ABNF plus the documented choices give one answer. Outside it (a `$` or `#` inside literal text,
+    two variables glued together, names with punctuation) tokenisation is unspecified and nothing is asserted."""
+    try:
+        parts = rex.split_template(expr) if not (expr.startswith("$") and "{" not in expr and "}" not in expr) else [("expr", expr)]
+    except rex.Malformed:
+        # unbalanced / nested braces are in the domain (must be rejected) unless a `#` or `$` sits in the literal text around them
+        outside = re.sub(r"\{[^{}]*\}", "", expr)
+        return "#" not in outside and "$" not in outside
+    for kind, text in parts:
+        if kind == "text":
+            if "$" in text or "#" in text:
+                return False
+            continue
+        if text.count("$") != 1 or not text.startswith("$"):
+            return False
+        m = re.match(r"^\$(request|response)\.(header|query|path)\.(.*)$", text)
+        if m:
+            name = m.group(3).split("#", 1)[0]
+            if not SIMPLE_NAME.match(name):
+                return False
+    return True
+
+
 def check_expression(ctx: Ctx, inp) -> None:
     import requests
     from schemathesis.core import NOT_SET
@@ -157,6 +184,10 @@ def check_expression(ctx: Ctx, inp) -> None:
     from schemathesis.specs.openapi import expressions
 
     ex, expr = inp["exchange"], inp["expr"]
+    if not in_domain(expr):
+        ctx.evaluations += 1
+        ctx.inconclusive_case("expression outside the zone where the grammar gives one answer")
+        return
     op = _operation()
     case = op.Case(path_parameters=dict(ex["path_parameters"]), query=ex["query"], headers=ex["headers"], body=NOT_SET if ex["body"] == "<no-body>" else ex["body"], media_type="application/json")
     req = requests.Request("POST", "http://127.0.0.1:1/api/u/1").prepare()
@@ -188,12 +219,17 @@ def check_expression(ctx: Ctx, inp) -> None:
     if malformed:
         if raised is None and got is rex.UNRES:
             ctx.inconclusive_case("ill-formed expression evaluated to 'unresolvable' (no value is passed on)")
+        elif raised is None and "{" not in expr and any(expr.startswith(v) and len(expr) > len(v) for v in ("$url", "$method", "$statusCode")):
+            ctx.disagree("malformed-expression-evaluated:bare-variable-followed-by-text", f"{expr!r} is not an expression of the ABNF (text after a bare variable needs the embedded `{{...}}` form) but evaluates to {got!r}", input=inp)
         elif raised is None:
             ctx.disagree("malformed-expression-evaluated", f"ill-formed expression {expr!r} evaluated to {got!r} instead of being rejected", input=inp)
         return
     if "$url" in expr:
         return
     if raised is not None:
+        if not strict:
+            ctx.inconclusive_case("a `$` inside literal text: tokenisation unspecified")
+            return
         if ex["response_body"] == "<no-body>" and "$response.body" in expr:
             ctx.inconclusive_case("response without a JSON body: raising is acceptable")
             return
@@ -463,7 +499,14 @@ def _eval_nested(node, exchange):
     return node
 
 
+def run_fuzz(ctx, spec):
+    from vfw import core
+
+    core.run_atheris(ctx, dict(spec, replay_sub="expressions"), "expressions", check_expression, 30000 if ctx.tier == "quick" else 1500000)
+
+
 SUBS = [
+    Sub("fuzz_expressions", runner=run_fuzz, quick=(1, 0), thorough=(4, 0), timeout_quick=300, timeout_thorough=3000),
     Sub("expressions", fn=check_expression, strategy=expression_case, quick=(8, 1500), thorough=(16, 40000), timeout_quick=600, timeout_thorough=3400),
     Sub("links", collect=True, fn=check_links, strategy=link_case, quick=(16, 25), thorough=(16, 600), shrink_quick=False, timeout_quick=600, timeout_thorough=3400),
 ]
